@@ -2701,7 +2701,9 @@ func (s *ShowMeasurementsStatement) String() string {
 	var buf strings.Builder
 	_, _ = buf.WriteString("SHOW MEASUREMENTS")
 
-	if s.Database != "" || s.WildcardDatabase {
+	// An empty database name (ON "") only matters, and is only printed, when
+	// a retention policy follows it.
+	if s.Database != "" || s.WildcardDatabase || s.RetentionPolicy != "" || s.WildcardRetentionPolicy {
 		_, _ = buf.WriteString(" ON ")
 		if s.WildcardDatabase {
 			_, _ = buf.WriteString("*")
